@@ -81,12 +81,20 @@ Theorem C44_ignore_lower : forall nsrv s c v rs s' o,
 Proof. exact update_from_lower_priority_ignored. Qed.
 Print Assumptions C44_ignore_lower.
 
-(* History statement: NOT proved.  Full statement:
-     forall cfg ops, exists obs, run cfg ops = Some obs /\ holds_core cfg ops obs = true
-   (the monitor [clauses], minus clause 2 which is false of the code, holds on every model
-   trace).  The monitor is evaluated on every implementation trace by the check and the model is
-   compared with the implementation; the step theorems above hold from every state, reachable or
-   not, so they cover every history, but the link monitor-state = model-state is not proved. *)
+(* History statement.  [clauses] is the monitor evaluated on every implementation trace: from the
+   ops and the observed channel events it keeps which servers have a channel, the active server,
+   whether a server's current stream has delivered a response, which names are watched and which
+   of them no processed update has named, and checks clause 1 (a channel is created only by a
+   stream failure before any response of a higher-priority server while some watched resource is
+   uncached; channel 0 only by the first watch), clause 2 (that server is the active one) and
+   clause 3 (channels are released only by an update from above the active server - exactly the
+   lower-priority ones - or all of them on the last cancel).  For every configuration and every
+   op list, of any length, every clause except the registered finding clause 2 holds on the
+   model's own trace (invariant monitor state = model state, induction over the op list). *)
+Theorem C44_holds_on_every_model_trace : forall cfg ops,
+  exists obs, run cfg ops = Some obs /\ holds_core cfg ops obs = true.
+Proof. exact model_trace_holds. Qed.
+Print Assumptions C44_holds_on_every_model_trace.
 
 (* non-vacuity: fallback to s1 after s0 fails before any response, then s0 comes back and its
    first update releases s1 *)
